@@ -800,6 +800,66 @@ func mapRangeLoops(fn *ssa.Function) []*MLoop {
 	return out
 }
 
+// reachingStores: for a load *al of a local variable whose address never leaves the loads and stores of its own
+// function (plain == true), the stores to al that reach the load: on some path from the store to the load no other
+// store to al is executed. An uninitialised path (the zero value) contributes nothing.
+func reachingStores(load *ssa.UnOp) (stores []*ssa.Store, plain bool) {
+	al, ok := load.X.(*ssa.Alloc)
+	if !ok || load.Op != token.MUL {
+		return nil, false
+	}
+	if fn := load.Parent(); fn != nil && fn.Recover != nil {
+		// a load in the block that runs after a recovered panic sees whatever was stored before the panic
+		for b := load.Block(); ; {
+			if b == fn.Recover {
+				return nil, false
+			}
+			if len(b.Preds) != 1 {
+				break
+			}
+			b = b.Preds[0]
+		}
+	}
+	for _, r := range *al.Referrers() {
+		switch y := r.(type) {
+		case *ssa.Store:
+			if y.Addr != ssa.Value(al) {
+				return nil, false // the address itself is stored somewhere
+			}
+		case *ssa.UnOp:
+			if y.Op != token.MUL {
+				return nil, false
+			}
+		case *ssa.DebugRef:
+		default:
+			return nil, false // captured by a closure, passed to a call, ...
+		}
+	}
+	seen := map[*ssa.BasicBlock]bool{}
+	found := map[*ssa.Store]bool{}
+	// scan block b backwards from instruction index i-1; true when a store ended the search on this path
+	var back func(b *ssa.BasicBlock, from int)
+	back = func(b *ssa.BasicBlock, from int) {
+		for i := from - 1; i >= 0; i-- {
+			if st, ok := b.Instrs[i].(*ssa.Store); ok && st.Addr == ssa.Value(al) {
+				if !found[st] {
+					found[st] = true
+					stores = append(stores, st)
+				}
+				return
+			}
+		}
+		for _, p := range b.Preds {
+			if !seen[p] {
+				seen[p] = true
+				back(p, len(p.Instrs))
+			}
+		}
+	}
+	back(load.Block(), instrIndex(load))
+	return stores, true
+}
+
 // phiLeaves expands phis (and single-store locals) into the set of non-phi values merged.
 func phiLeaves(v ssa.Value) []ssa.Value {
 	seen := map[ssa.Value]bool{}
@@ -818,6 +878,17 @@ func phiLeaves(v ssa.Value) []ssa.Value {
 			return
 		case *ssa.UnOp:
 			if al, ok := x.X.(*ssa.Alloc); ok && x.Op == token.MUL {
+				// a plain local (results spilled because the function defers, a variable whose address stays in
+				// the function): the stores that can reach this load, not every store to the variable
+				if sts, plain := reachingStores(x); plain {
+					for _, st := range sts {
+						rec(st.Val)
+					}
+					if len(sts) > 0 {
+						return
+					}
+					break
+				}
 				n := 0
 				for _, r := range *al.Referrers() {
 					if st, ok := r.(*ssa.Store); ok && st.Addr == al {
@@ -873,6 +944,9 @@ func feasibleUnder(fn *ssa.Function, assume func(v ssa.Value) Tri, depth int) (m
 	reach := map[*ssa.BasicBlock]bool{fn.Blocks[0]: true}
 	var eval func(v ssa.Value, d int) Tri
 	eval = func(v ssa.Value, d int) Tri {
+		if isNewFlag(v) {
+			return F // an option added later, at its default
+		}
 		switch x := v.(type) {
 		case *ssa.UnOp:
 			if x.Op == token.NOT {
@@ -1556,6 +1630,9 @@ func explorePathsX(fn *ssa.Function, start ssa.Instruction, target ssa.Instructi
 	eval = func(v ssa.Value, ps *pathState, d int) Tri {
 		if d > 6 {
 			return U
+		}
+		if isNewFlag(v) {
+			return F // an option added later, at its default
 		}
 		switch x := v.(type) {
 		case *ssa.UnOp:
